@@ -12,22 +12,34 @@ PEPS = ["AAK", "CCK", "DDR", "EEK", "FMR", "GGK", "HHR", "IIK"]
 PEP_VALUES = ["1/1048576", "1/8192", "1/256", "1/64", "1/4", "3/4"]
 
 
-def write_evidence(path, rows, silac, tmt=0):
+def write_evidence(path, rows, silac, tmt=0, colperm=None):
     cols = ["Sequence", "Modified sequence", "Leading proteins", "Leading razor protein", "PEP", "Score", "Experiment",
             "Charge", "Intensity", "Raw file", "Fraction", "id"]
     sil = {2: ["Intensity L", "Intensity H"], 3: ["Intensity L", "Intensity M", "Intensity H"]}.get(silac, [])
     tm = []
     for i in range(1, tmt + 1):
         tm += [f"Reporter intensity corrected {i}", f"Reporter intensity {i}", f"Reporter intensity count {i}"]
+    header = cols + sil + tm
+    perm = list(range(len(header)))
+    if colperm is not None:
+        # the columns of the file in another order (columns are found by name): a seeded shuffle of all of them
+        import random
+        random.Random(colperm).shuffle(perm)
+        # ... except that the reporter columns keep their relative order: the tool takes them in file order, which is MaxQuant's
+        # fixed order (the SILAC channels L / M / H and every other column are found by name)
+        slots = [i for i, k in enumerate(perm) if header[k] in tm]
+        for i, k in zip(slots, sorted(perm[i] for i in slots)):
+            perm[i] = k
     with open(path, "w", newline="") as f:
         w = csv.writer(f, delimiter="\t")
-        w.writerow(cols + sil + tm)
+        w.writerow([header[k] for k in perm])
         for r in rows:
-            w.writerow([r["mod"].replace("(ox)", ""), "_" + r["mod"] + "_", ";".join(r["proteins"]),
-                        r["proteins"][0] if r["proteins"] else "",
-                        "NaN" if r["pep"] is None else repr(float(Fraction(r["pep"]))), "100", r["exp"], r["charge"],
-                        {"nan": "NaN", "empty": ""}.get(r["intensity"], r["intensity"]), "raw_" + r["exp"], 1, r["id"]]
-                       + [str(x) for x in r["silac"][:silac]] + [str(x) for x in r.get("tmt", [])[:3 * tmt]])
+            cells = ([r["mod"].replace("(ox)", ""), "_" + r["mod"] + "_", ";".join(r["proteins"]),
+                      r["proteins"][0] if r["proteins"] else "",
+                      "NaN" if r["pep"] is None else repr(float(Fraction(r["pep"]))), "100", r["exp"], r["charge"],
+                      {"nan": "NaN", "empty": ""}.get(r["intensity"], r["intensity"]), "raw_" + r["exp"], 1, r["id"]]
+                     + [str(x) for x in r["silac"][:silac]] + [str(x) for x in r.get("tmt", [])[:3 * tmt]])
+            w.writerow([cells[k] for k in perm])
 
 
 def fq(x):
@@ -50,7 +62,7 @@ class QuantSuite(Suite):
             "group, spanning two groups (shared), partly or wholly unknown; PEPs on a dyadic grid incl. ties, match-between-runs rows "
             "(NaN PEP), the same (peptide, charge) identified in one row and not in another, modified forms; intensities multiples of 1024 "
             "(float sums exact), NaN and empty intensity cells; label-free, SILAC 2 / 3 channels or TMT 1 / 2 channels; proteins missing from the iBAQ table; "
-            "PSM-level FDR 0.01 / 0.05 / 1; a quarter of the inputs with an experimental design whose experiments are listed in an order that is not the sorted one; non-trivial = a row discarded as shared or unknown, a precursor dropped by the identified filter, and >= 2 groups with precursors")
+            "PSM-level FDR 0.01 / 0.05 / 1; a third of the files with their columns in a shuffled order; a quarter of the inputs with an experimental design whose experiments are listed in an order that is not the sorted one; non-trivial = a row discarded as shared or unknown, a precursor dropped by the identified filter, and >= 2 groups with precursors")
 
     def gen(self, rng, tier):
         for _ in range(core.tier_n(tier, 700, 12000)):
@@ -92,6 +104,8 @@ class QuantSuite(Suite):
                 del ibaq[rng.choice(known)]
             case = {"groups": groups, "rows": rows, "ibaq": ibaq, "silac": silac, "fdr": rng.choice([0.01, 0.05, 0.05, 1.0]),
                     "tmt": self.tmt_choice(rng, silac)}
+            if rng.random() < 0.3:
+                case["colperm"] = rng.randint(1, 10 ** 6)
             if rng.random() < 0.25:
                 # an experimental design: raw files assigned to experiments whose names do NOT sort in the order they are listed
                 # (E2 before E10, B before A): the per-experiment columns follow the design's order
@@ -122,10 +136,29 @@ class QuantSuite(Suite):
         from picked_group_fdr.writers.base import ProteinGroupsWriter
         d = tempfile.mkdtemp(prefix="c12_", dir=core.scratch())
         ev = os.path.join(d, "evidence.txt")
-        write_evidence(ev, case["rows"], case["silac"], case.get("tmt", 0))
+        write_evidence(ev, case["rows"], case["silac"], case.get("tmt", 0), case.get("colperm"))
         st = ProteinScoringStrategy("no_remap bestPEP")
         parsed = [list(t) for t in psm.parse_evidence_file_multiple([ev], peptide_to_protein_maps=[None], score_type=st,
                                                                     for_quantification=True)]
+        # the rows the model is given are the parser's (C10 ties the parser for inference; its quantification fields are tied HERE):
+        # charge, raw file, experiment, intensity, PEP, SILAC / TMT vectors and id of every row must be those of the file's row
+        def same(a, b):
+            return (a != a and b != b) or a == b
+        bad_row = None
+        if len(parsed) != len(case["rows"]):
+            bad_row = f"{len(parsed)} rows parsed from a file of {len(case['rows'])} rows"
+        else:
+            for i, (pr, cr) in enumerate(zip(parsed, case["rows"])):
+                want_int = float("nan") if cr["intensity"] == "nan" else 0.0 if cr["intensity"] == "empty" else float(cr["intensity"])
+                want_pep = float("nan") if cr["pep"] is None else float(Fraction(cr["pep"]))
+                ok = (int(pr[2]) == cr["charge"] and pr[3] == "raw_" + cr["exp"] and pr[4] == cr["exp"] and same(float(pr[6]), want_int)
+                      and same(float(pr[7]), want_pep) and [float(x) for x in pr[8]] == [float(x) for x in cr.get("tmt", [])[:3 * case.get("tmt", 0)]]
+                      and [float(x) for x in pr[9]] == [float(x) for x in cr["silac"][:case["silac"]]] and int(pr[10]) == cr["id"])
+                if not ok:
+                    bad_row = f"row {i} of the file is {cr} but the parser yields {pr}"[:400]
+                    break
+        if bad_row:
+            return {"raise": "OtherError", "parsed": parsed, "cutoffs": [], "msg": "evidence parser (quantification fields): " + bad_row}
         pgr = ProteinGroupResults([ProteinGroupResult(proteinIds=";".join(g), majorityProteinIds=";".join(g), qValue=0.001 * i,
                                                       score=10.0 - i) for i, g in enumerate(case["groups"])])
         pg = ProteinGroups.from_protein_group_results(pgr)
